@@ -7,7 +7,7 @@ from oracle_util import *  # noqa
 from protocol import from_real
 
 ID = "C04"
-LEAN_MODULE = ["SCoda.Props.C04", "SCoda.Props.C04b", "SCoda.Props.C04c", "SCoda.Props.WrapTie", "SCoda.Props.C04d", "SCoda.Props.ViewTie", "SCoda.Props.C04e"]
+LEAN_MODULE = ["SCoda.Props.C04", "SCoda.Props.C04b", "SCoda.Props.C04c", "SCoda.Props.WrapTie", "SCoda.Props.C04d", "SCoda.Props.ViewTie", "SCoda.Props.C04e", "SCoda.Props.SortTie"]
 LEVEL = "proof"
 CLAUSES = [
     ("after any history both views describe the same timed events and the same duration (generic two-view machine, instantiated with the modelled conversions)",
@@ -60,6 +60,8 @@ CLAUSES = [
      ["SCoda.C04.ops_covered", "SCoda.C04.ops_exist"]),
     ("C04 FOR THE TRANSLATED SOURCE WITH NO FALLBACK ON THE MODEL (audit round 3 R7): genRunStrict executes every step by the translation of sequence.py and answers 'no translated counterpart' instead of falling back on the hand model; from a state in the invariant any legal history over the translated entries runs to the end, keeps the invariant and leaves both views readable and in agreement. The translated step exists EXACTLY for the hasGen entries, for every state, equals included, and equals the model's step there. 'Every alphabet entry has a translated counterpart' is FALSE: editAbsFirst / editRelFirst are a consumer abandoning a generator after the first message, and pairings (Sequence.get_message_pairings) is not in the wrapper translator's list, its effect being the heap-level AbsTie2.pairings_init, composed in pairings_gen_state; those three stay covered by C04c.history_inv plus the sampled correspondence",
      ["SCoda.C04e.genExec2_isSome", "SCoda.C04e.genExec_isSome", "SCoda.C04e.hasGen_false_iff", "SCoda.C04e.genExec2_eq", "SCoda.C04e.genExec2_total_partial", "SCoda.C04e.genExec_total_statement_false", "SCoda.C04e.genExec2_total_statement_false", "SCoda.C04e.genRunStrict_eq", "SCoda.C04e.genRunStrict_none", "SCoda.C04e.genRunStrict_eq_none", "SCoda.C04e.genRun_uses_gen", "SCoda.C04e.history_inv_strict", "SCoda.C04e.history_readable_strict", "SCoda.C04e.views_agree_after_strict", "SCoda.C04e.history_readable_illegal_strict", "SCoda.C04e.pairings_gen_state"]),
+    ("TIE BY TRANSLATION of the sort that every absolute-view operation goes through: AbsoluteSequence.sort (its list.sort call and the key lambda (time, -1 if channel is None else channel, message_type, note)), MessageType.__lt__ and the declaration order of the enum members are re-translated expression by expression on every run (Gen/SortFns.lean, tools/py2lean_sort.py; Python's == and < on None / int / enum members, tuple comparison, list.index and list.sort are the language model Model/SortLib.lean) and proved equal to the hand model: on every message list whose keys Python can compare (the times are all None or all ints; two messages equal in (time, channel, type) have both notes None or both ints) the translated sort returns exactly sortAbs l, through any projection (heap references, tagged messages); outside that domain it raises TypeError, as the real code does (replayed: a NOTE_ON with a note and a hand-built NOTE_ON without one on the same tick and channel; a message without a time in a timed sequence; two TIME_SIGNATUREs on one tick and channel are inside the domain); keyLe a b holds iff key(b) < key(a) is False; Python's key order is a strict weak order on the domain and ANY stable sort by it (a permutation that is sorted and keeps the relative order of equal keys) is sortAbs l — modelling CPython's timsort by an insertion sort is a theorem, the one assumption left is that list.sort is a stable comparison sort. This discharges the list.sort links of tools/py2lean.py (sort -> sortAbs) and tools/py2lean_abs2.py (sortRefs), which until now were only fingerprinted (tools/conventions.py)",
+     ["SCoda.SortTie.sort_eq", "SCoda.SortTie.sortOf_eq_isort", "SCoda.SortTie.sort_raises", "SCoda.SortTie.sortOf_raises", "SCoda.SortTie.sort_ok_iff", "SCoda.SortTie.keyLe_iff", "SCoda.SortTie.keyLt_eq", "SCoda.SortTie.keyLt_ok_iff_comparable", "SCoda.SortTie.messageTypeLt_eq", "SCoda.SortTie.messageTypeLt_nonmember", "SCoda.SortTie.members_eq", "SCoda.SortTie.memberNames_eq", "SCoda.SortTie.generated_order_strictWeakOrder", "SCoda.SortTie.any_stable_sort_eq_sortAbs", "SCoda.SortTie.stable_sort_is_isortBy", "SCoda.SortTie.isortBy_is_stable_sort", "SCoda.SortTie.sortDom_of_wellFormed", "SCoda.SortTie.sortRefs_discharged", "SCoda.SortTie.viewSort_discharged", "SCoda.SortTie.sort_eq_statement_false", "SCoda.SortTie.keyLe_iff_statement_false"]),
 ]
 RULE = ("random histories (<=12 ops quick, <=40 thorough) over the full public alphabet (mutators, both overwrites, edits while "
         "iterating either view incl. in-order time edits, copy (the original left behind is kept and re-read at the end), refresh, reads in any order, the "
